@@ -23,6 +23,11 @@ theorem c05_pred_model_closed (s : Start) (ops : List Op) (hwf : wf s = true) (h
     Pred.C05.pred s ops (Pred.C05.modelObs s ops) = true :=
   c05_pred_model headerRoundTrip s ops hwf hfw
 
+theorem c05_pred_model_partial_closed (s : Start) (ops : List Op)
+    (hc : startCovered s = true) (hsz : sizeOk s ops = true) :
+    Pred.C05.pred s ops (Pred.C05.modelObs s ops) = true :=
+  c05_pred_model_partial headerRoundTrip s ops hc hsz
+
 theorem c05_wire_closed (h : Header) (id : UInt8) (v : Bytes) (h' : Header)
     (hl : legal h = true) (hs : setExtension h id v = (none, h'))
     (hfix : h.version.toNat < 4 ∧ h.payloadType.toNat < 128 ∧ h.csrc.length ≤ 15)
